@@ -177,6 +177,10 @@ def run(check, an: Analysis):
 
     # ---- A ------------------------------------------------------------------
     _check_formulas(check, an, transfer, throttle, paths)
+    # the fluid model is integrated with the numbers as they are: no rounding, no tolerance
+    from . import c01
+    c01.check_exact_arithmetic(check, an, 'A', ('usim._basics.pipe', 'usim._core.loop',
+                                                'usim._primitives.notification'))
     check.stats.update(an.stats())
 
 
